@@ -1,7 +1,7 @@
 #!/bin/sh
-# usage: tools/confirm_seed.sh <Cxx> <N>   — confirms seed N of /tmp/seed-Cxx in that scratch worktree:
+# usage: tools/confirm_seed.sh <Cxx> <N> [worktree dir, default /tmp/seed-Cxx]   — confirms seed N of /tmp/seed-Cxx in that scratch worktree:
 #   demo passes on the clean tree; with the patch the 94 unit tests + 2 doctests pass and the demo fails.
-id="$1"; n="$2"; d="/tmp/seed-$id"; s="$d/SEED$n"
+id="$1"; n="$2"; d="${3:-/tmp/seed-$id}"; s="$d/SEED$n"
 [ -f "$s/patch.diff" ] || { echo "$id seed$n: no patch"; exit 2; }
 cd "$d" || exit 2
 git checkout -- . >/dev/null 2>&1; rm -rf tests/demo_seed*.rs
